@@ -44,8 +44,9 @@ def day_forms(quick):
 
 
 def clock_choices(quick):
-    mins = [(9, 0), (15, 30), (0, 0), (23, 45), (12, 15), (20, 0)] if quick else \
-        [(h, mi) for h in (0, 7, 9, 12, 15, 20, 23) for mi in (0, 15, 30, 45, 5)]
+    # incl. clock values whose digits read as the reference year / the next year (20:18, 20:19 at a 2018 reference time)
+    mins = [(9, 0), (15, 30), (0, 0), (23, 45), (12, 15), (20, 0), (20, 18), (20, 19)] if quick else \
+        [(h, mi) for h in (0, 7, 9, 12, 15, 20, 23) for mi in (0, 15, 30, 45, 5)] + [(20, 18), (20, 19), (20, 20), (20, 21)]
     out = []
     for (h, mi) in mins:
         seen = set()
